@@ -180,14 +180,15 @@ def check_pack_banner(world, inside, beside, order, slash):
             fsobj.order = order
             pdir = join(fsname, base, "Songs", "MyPack") + ("/" if slash else "")
             want = set()
-            for where, n in MA.pack_banner_acceptable(inside, beside, "MyPack"):
+            acceptable, none_ok = MA.pack_banner_acceptable(inside, beside, "MyPack")
+            for where, n in acceptable:
                 want.add(norm(fsname, join(fsname, base, "Songs", "MyPack", n) if where == "in" else join(fsname, base, "Songs", n)))
             r = core.outcome_of(lambda: SimfilePack(pdir, filesystem=fsobj).banner())
             if r[0] != "ok":
                 fails.append({"clause": "pack banner lookup raised", "expected": sorted(want) or None, "observed": r, "fs": fsname})
                 continue
             got = r[1]
-            if (got is None) != (not want) or (got is not None and norm(fsname, got) not in want):
+            if (got is None and not none_ok) or (got is not None and norm(fsname, got) not in want):
                 fails.append({"clause": "pack banner is not the best-priority image in the pack / the image beside it carrying its name / None", "expected": sorted(want) or None, "observed": got, "fs": fsname})
             elif got is not None and not exists(fsname, fsobj, got):
                 fails.append({"clause": "pack banner path does not exist", "expected": "existing path", "observed": got, "fs": fsname})
@@ -312,11 +313,17 @@ def explore_shard(acc, shard):
             layer = "pack banners"
             imgs = ["a.png", "B.JPG", "c.jpeg", "d.GIF", "e.bmp", "f.txt", "z.PNG", "cover_png", "x.jpgx"]
             besides = [[], ["MyPack.png"], ["MyPack.jpg", "MyPack.bmp"], ["Other.png"], ["mypack.png"], ["MyPack.gif", "Other.png"]]
+            # when nothing inside the pack qualifies, every set of <= 2 neighbours, including names that merely
+            # begin / end with the pack's name or carry a further extension
+            NEIGHBOURS = ["MyPack.png", "MyPack.jpg", "MyPack.jpeg", "MyPack.gif", "MyPack.bmp", "mypack.png", "MyPack.PNG", "Other.png",
+                          "MyPack 2.png", "MyPackX.jpg", "XMyPack.png", "MyPack.txt", "MyPack.png.bak", "MyPack.2.gif", "MyPackpng"]
+            besides_full = [list(c) for r in range(0, 3) for c in itertools.combinations(NEIGHBOURS, r)]
             idx = imgs.index(first) if first is not None else None
             subsets = [[]] if first is None else [[first] + list(s) for r in range(0, 3) for s in itertools.combinations(imgs[idx + 1:], r)]
             case = None
             for inside in subsets:
-                for beside in besides:
+                no_image_inside = not any(n.lower().endswith(e) for n in inside for e in MA.IMAGE_PRIORITY)
+                for beside in (besides_full if no_image_inside else besides):
                     acc.count("states")
                     if inside or beside:
                         acc.count("nontrivial")
@@ -327,8 +334,10 @@ def explore_shard(acc, shard):
                             fails = check_pack_banner(world, inside, beside, order, slash)
                             acc.count("transitions")
                             acc.count("evaluations", 2)
-                            if not inside and beside:
+                            if no_image_inside and beside:
                                 acc.outcome("banner beside the pack")
+                            if no_image_inside and any(n not in ("Other.png",) and not MA.pack_banner_acceptable([], [n], "MyPack")[0] for n in beside):
+                                acc.outcome("neighbour whose name only resembles the pack's")
                             for f in fails:
                                 acc.violation(f["clause"], case, f["expected"], f["observed"], signature=(f["clause"],))
             if case:
@@ -355,7 +364,7 @@ def explore(run):
     run.rule = (
         f"contents: every subset of <= {maxn} names from a {len(NAMES)}-name alphabet (hit / near-miss / miss for every pattern, mixed case), with the simfile given or loaded from the directory, every listing order; "
         f"properties: per asset kind every state in {STATES} x every subset of <= 3 of {EXTRAS} (named file, pattern hit, near miss, named file in sub/, empty sub/) x every listing order; "
-        "pack banners: <= 3 of 7 entries inside x 6 sets beside x listing orders x trailing slash; all on MemoryFS and a native temporary directory. "
+        "pack banners: <= 3 of 7 entries inside x 6 sets beside (every set of <= 2 of 15 neighbours, look-alike names included, when no image is inside) x listing orders x trailing slash; all on MemoryFS and a native temporary directory. "
         "Which of several matching entries is returned is not claimed (any is accepted); the disc image lookup is not claimed. Non-trivial = at least two entries / a property state."
     )
     run.assumptions = ["mc/models/assets.py states the documented patterns; listing order is chosen through the filesystem seam"]
@@ -365,6 +374,7 @@ def explore(run):
     core.require(acc.outcomes["completely empty simfile object given"] > 0, "empty simfile never given")
     core.require(acc.outcomes["specified file whose name begins/ends with blanks"] > 0, "no blank-edged file name")
     core.require(acc.outcomes["banner beside the pack"] > 0, "no banner beside pack")
+    core.require(acc.outcomes["neighbour whose name only resembles the pack's"] > 0, "no look-alike neighbour")
     return run.finish(
         states=acc.c["states"],
         transitions=acc.c["transitions"],
